@@ -603,7 +603,28 @@ def _cum(p, x):
         scanned = x.chunks[0 if axis is None else axis % x.ndim]
     if method == "sequential" and _cum_empty_region(scanned):
         raise Excluded("cum_empty")
-    return getattr(da, f)(x, axis=axis, method=method)
+    dt = p.pick("dtype", (None, "f4", "i8", "f8"))      # an explicit dtype= (narrower / other kind than the input's) must be the dtype of every block
+    if dt is None:
+        return getattr(da, f)(x, axis=axis, method=method)
+    return getattr(da, f)(x, axis=axis, method=method, dtype=dt)
+
+
+@op("out_arg", "elem", ok=lambda x: K(x) and x.ndim >= 1 and is_num(x) and x.shape[0] >= 2)
+def _out_arg(p, x):
+    """ufunc / reduction with out=<dask array> whose chunks differ from the result's (same shape; same OR different number of blocks): afterwards
+    `out` must describe the blocks it now holds"""
+    n = x.shape[0]
+    layouts = [c for c in ((n,), (1, n - 1), (n - 1, 1), (n - 2, 2) if n > 2 else None, (1,) * n) if c is not None]
+    ch0 = layouts[p.choice("out_chunks", len(layouts))]
+    o = darr(values(x.shape, "f8"), (ch0,) + tuple(x.chunks[1:]))
+    which = p.pick("call", ("add", "negative", "cumsum"))
+    if which == "add":
+        da.add(x, 1, out=o)
+    elif which == "negative":
+        np.negative(x, out=o)
+    else:
+        da.cumsum(x, axis=0, out=o) if not _cum_empty_region(x.chunks[0]) else da.add(x, 2, out=o)
+    return o
 
 
 @op("topk", "reduce", ok=lambda x: K(x) and is_num(x) and x.ndim >= 1)
